@@ -944,6 +944,8 @@ class Exec:
 
     # ---------- expressions ----------
     def binop(self, op, a, b):
+        if isinstance(a, SymSet) and isinstance(b, SymSet) and isinstance(op, ast.BitOr):
+            return a | b
         if isinstance(a, (tuple, list)) and isinstance(b, (tuple, list)) and isinstance(op, ast.Add):
             return type(a)(list(a) + list(b)) if isinstance(a, tuple) else list(a) + list(b)
         if isinstance(a, str) and isinstance(b, str) and isinstance(op, ast.Add):
@@ -1027,6 +1029,12 @@ class Exec:
                 r = (a is None) if b is None else ((b is None and False) or a is b)
                 parts.append(r if isinstance(op, ast.Is) else (not r))
                 continue
+            if isinstance(op, (ast.In, ast.NotIn)) and isinstance(b, T) and b.ndim == 1 and b.axes[0].concrete() and not is_sym(a) and not isinstance(a, T):
+                its = [b.elem(q) for q in range(b.axes[0].size)]
+                if all(not is_sym(v) for v in its):
+                    r = a in its
+                    parts.append(r if isinstance(op, ast.In) else (not r))
+                    continue
             if isinstance(op, (ast.In, ast.NotIn)) and not isinstance(b, T):
                 if isinstance(a, (T,)) or is_sym(a):
                     raise Unsupported("symbolic membership test")
@@ -1238,6 +1246,8 @@ class Exec:
 
     def ev_Subscript(self, e, env, path):
         b = self.ev(e.value, env, path)
+        if isinstance(b, Obj):
+            return self.call_method(b.cls, "__getitem__", b, [self.ev(e.slice, env, path)], {}, path, e)
         if isinstance(b, dict):
             key = self.ev(e.slice, env, path)
             if is_sym(key):
@@ -1411,7 +1421,7 @@ class Exec:
                     its = [v.elem(i) for i in range(v.axes[0].size)]
                     if all(not is_sym(x) for x in its):
                         return set(its)
-                raise Unsupported("set() of symbolic tensor")
+                return SymSet([v])
             return set(args[0]) if args else set()
         if f is dict:
             return dict(*args, **kw)
@@ -1864,6 +1874,18 @@ def int_of_real(r):
         if c is not None:
             return c
     return If(r >= 0, ToInt(r), -ToInt(-r))
+
+
+class SymSet:
+    """opaque set of the values of symbolic tensors (only union / sorted / conversion to an array are supported)"""
+
+    def __init__(self, sources):
+        self.sources = tuple(sources)
+
+    def __or__(self, o):
+        if isinstance(o, SymSet):
+            return SymSet(self.sources + o.sources)
+        return NotImplemented
 
 
 class CalleeRaises(Exception):
